@@ -184,6 +184,9 @@ pub struct WriterState {
     pub err_at: Option<usize>,
     /// total offset from which the sink accepts nothing more: poll_write returns Ok(0) (a full fixed-size sink, a closed pipe)
     pub zero_at: Option<usize>,
+    /// total offset from which the writer stops accepting bytes for the time being (Pending, waker kept): back-pressure
+    /// setting in in the middle of a packet
+    pub stall_at: Option<usize>,
     pub waker: Option<Waker>,
     pub pendings: u64,
     pub calls_in_poll: u64,
@@ -205,6 +208,7 @@ impl MockWriter {
             stalled: false,
             err_at: None,
             zero_at: None,
+            stall_at: None,
             waker: None,
             pendings: 0,
             calls_in_poll: 0,
@@ -237,7 +241,7 @@ impl AsyncWrite for MockWriter {
                 return Poll::Ready(Ok(0));
             }
         }
-        if s.stalled {
+        if s.stalled || s.stall_at.map(|at| s.written.len() >= at).unwrap_or(false) {
             s.waker = Some(cx.waker().clone());
             s.pendings += 1;
             return Poll::Pending;
@@ -263,6 +267,9 @@ impl AsyncWrite for MockWriter {
             n = n.min(at - s.written.len());
         }
         if let Some(at) = s.zero_at {
+            n = n.min(at - s.written.len());
+        }
+        if let Some(at) = s.stall_at {
             n = n.min(at - s.written.len());
         }
         s.written.extend_from_slice(&buf[..n]);
